@@ -116,7 +116,7 @@ theorem skipSpaces_ok {cfg} : ∀ f s k, rem s ≤ k → k + 1 ≤ f → OK2 k (
             · exact ok2 (Nat.le_trans h2 (by omega)) (by decide)
         · exact ok2 (look h) (by decide)
 
-theorem skipKeyword_ok : ∀ ks s k, rem s ≤ k → OK2 k (skipKeyword ks s) := by
+theorem skipKeyword_fuel_ok : ∀ ks s k, rem s ≤ k → OK2 k (skipKeyword ks s) := by
   intro ks
   induction ks with
   | nil => intro s k h; exact ok2 h (by decide)
@@ -271,11 +271,11 @@ theorem fuel_mutual {cfg} : ∀ f,
               have h3 := parseQuoted_ok (cfg := cfg) (stop := (cur s1).1) (f+1) [] 0 _ _ h2 (by omega)
               split <;> (rename_i heq2; rw [heq2] at h3; exact ok3 (Nat.le_trans h3.1 (by omega)) h3.2)
             · split
-              · exact ok3_of_ok2 (skipKeyword_ok _ _ _ (look h1))
+              · exact ok3_of_ok2 (skipKeyword_fuel_ok _ _ _ (look h1))
               · split
-                · exact ok3_of_ok2 (skipKeyword_ok _ _ _ (look h1))
+                · exact ok3_of_ok2 (skipKeyword_fuel_ok _ _ _ (look h1))
                 · split
-                  · exact ok3_of_ok2 (skipKeyword_ok _ _ _ (look h1))
+                  · exact ok3_of_ok2 (skipKeyword_fuel_ok _ _ _ (look h1))
                   · exact parseNumeric_ok _ _ (look h1)
       · rename_i heq; rw [heq] at h0; exact ok3 h0.1 h0.2
     · intro limit s acc k h hf
